@@ -6,12 +6,23 @@
 //! and nothing is recorded unless recording has been started with [start].
 
 use std::cell::RefCell;
+use std::collections::VecDeque;
 use std::sync::atomic::{AtomicU32, Ordering};
 
 static NEXT_VM_ID: AtomicU32 = AtomicU32::new(1);
 
+// The recorded events: the first `head_limit` events, and the most recent `tail_limit` events
+// of whatever follows (long executions would otherwise record without bound).
+struct Sink {
+    head: Vec<Event>,
+    tail: VecDeque<Event>,
+    head_limit: usize,
+    tail_limit: usize,
+    dropped: usize,
+}
+
 thread_local! {
-    static SINK: RefCell<Option<Vec<Event>>> = const { RefCell::new(None) };
+    static SINK: RefCell<Option<Sink>> = const { RefCell::new(None) };
 }
 
 /// A recorded VM event
@@ -48,12 +59,34 @@ pub fn next_vm_id() -> u32 {
 
 /// Starts recording events on this thread, discarding any previously recorded events
 pub fn start() {
-    SINK.with(|sink| *sink.borrow_mut() = Some(Vec::new()));
+    start_with_limits(usize::MAX, 0);
+}
+
+/// Starts recording, keeping the first `head_limit` events and the last `tail_limit` events
+pub fn start_with_limits(head_limit: usize, tail_limit: usize) {
+    SINK.with(|sink| {
+        *sink.borrow_mut() = Some(Sink {
+            head: Vec::new(),
+            tail: VecDeque::new(),
+            head_limit,
+            tail_limit,
+            dropped: 0,
+        })
+    });
 }
 
 /// Stops recording on this thread and returns the recorded events
 pub fn take() -> Vec<Event> {
-    SINK.with(|sink| sink.borrow_mut().take().unwrap_or_default())
+    take_with_gap().0
+}
+
+/// Stops recording on this thread and returns the first events, the number of events that were
+/// dropped after them, and the last events
+pub fn take_with_gap() -> (Vec<Event>, usize, Vec<Event>) {
+    SINK.with(|sink| match sink.borrow_mut().take() {
+        Some(sink) => (sink.head, sink.dropped, sink.tail.into()),
+        None => (Vec::new(), 0, Vec::new()),
+    })
 }
 
 /// Returns true if events are being recorded on this thread
@@ -64,8 +97,18 @@ pub fn enabled() -> bool {
 /// Records an event if recording is enabled
 pub fn emit(event: Event) {
     SINK.with(|sink| {
-        if let Some(events) = sink.borrow_mut().as_mut() {
-            events.push(event);
+        if let Some(sink) = sink.borrow_mut().as_mut() {
+            if sink.head.len() < sink.head_limit {
+                sink.head.push(event);
+            } else if sink.tail_limit > 0 {
+                if sink.tail.len() == sink.tail_limit {
+                    sink.tail.pop_front();
+                    sink.dropped += 1;
+                }
+                sink.tail.push_back(event);
+            } else {
+                sink.dropped += 1;
+            }
         }
     });
 }
